@@ -1259,8 +1259,24 @@ class SymSeq:
 
     def m_split(self, sep=None, maxsplit=-1):
         self._need_plain("split")
+        if sep is None and maxsplit == -1:
+            # whitespace split: every unit must be decidably blank or non-blank
+            parts, curr = [], []
+            for u in self.items:
+                c = self._blank_cond(u, None, "left") if not isinstance(u, Hx) else False
+                if c is None:
+                    raise Unsupported("split() on non-ascii text")
+                if bool(c):
+                    if curr:
+                        parts.append(curr)
+                        curr = []
+                else:
+                    curr.append(u)
+            if curr:
+                parts.append(curr)
+            return [SymSeq(self.kind, p).simplify() for p in parts]
         if sep is None or maxsplit != -1:
-            raise Unsupported("split() without separator / with maxsplit on symbolic text")
+            raise Unsupported("split() with maxsplit on symbolic text")
         s = SymSeq.of(sep) if not isinstance(sep, SymSeq) else sep
         if len(s.items) != 1 or not isinstance(s.items[0], int):
             raise Unsupported("split with multi-char or symbolic separator")
@@ -1371,6 +1387,18 @@ def seq_join(sep, parts):
         if isinstance(p, SymChoice):
             p = p.as_seq()
         if isinstance(p, Opaque):
+            if sep.items == [46] and len(parts) == 4 and all(isinstance(q, (Opaque, str)) for q in parts):
+                args = []
+                for q in parts:
+                    if isinstance(q, Opaque) and q.okind == "DecStr":
+                        args.append(q.args[0])
+                    elif isinstance(q, str) and q.isdigit() and str(int(q)) == q:
+                        args.append(int(q))
+                    else:
+                        raise Unsupported("join of an opaque rendering")
+                inr = b_and(*[b_and(a >= 0, a <= 255) for a in args])
+                if inr is True or (inr is not False and bool(inr)):
+                    return Opaque("Ipv4", args)
             raise Unsupported("join of an opaque rendering")
         ps = SymSeq.of(p) if not isinstance(p, SymSeq) else p
         if ps.kind != sep.kind:
